@@ -17,7 +17,7 @@ TInit == /\ l = 1
          /\ stage = "parsed" /\ written = {} /\ exit = 99
 
 \* the final state of the protocol for request e
-ExpectedExit(e) == IF e.program = "valid" /\ e.placement # "outdirMissing" THEN 0 ELSE 1
+ExpectedExit(e) == IF e.program \in {"valid", "validWide"} /\ e.placement # "outdirMissing" THEN 0 ELSE 1
 ExpectedFiles(e) == IF ExpectedExit(e) = 0 THEN {Destination(e.qname, e.placement)} ELSE {}
 
 Matches(e) ==
